@@ -38,6 +38,7 @@
 
 #include <pthread.h>
 #include <time.h>
+#include <utmp.h>
 
 
 
@@ -78,6 +79,8 @@ int                        snoopy_tsrm_get_threadCount      ();
  * Wrappers for libc functions that must not be in progress during fork()
  */
 struct tm*                 snoopy_tsrm_localtime_r          (const time_t *timep, struct tm *result);
+size_t                     snoopy_tsrm_strftime             (char *s, size_t max, const char *format, const struct tm *tm);
+int                        snoopy_tsrm_getutline            (const struct utmp *line, struct utmp *ubuf, struct utmp **ubufp);
 
 
 
